@@ -424,27 +424,39 @@ structure EncResult where
   /-- the caller's module after the call (only the PDS encoder assigns into it) -/
   after : Items
 
-/-- `encoder.encode(module)` -/
-def encode (c : EncCfg) (items : Items) : EncResult :=
+/-- the caller's module after `encoder.encode(module)`: only `PDSLabelEncoder.encode` stores into
+    its argument, and only when the conversion goes through -/
+def encodeAfter (c : EncCfg) (items : Items) : Items :=
+  if c.kind == .pds then
+    (match pdsConvert c items with
+     | .ok items' => items'
+     | .error _ => items)
+  else items
+
+def charAllowedE (g : Grammar) (ch : Nat) : Bool := inRanges g.allowed ch
+
+/-- the text `encoder.encode(module)` returns, or its refusal -/
+def encodeOut (c : EncCfg) (items : Items) : Except EErr Str :=
   let conv : Except EErr Items := if c.kind == .pds then pdsConvert c items else .ok items
   match conv with
-  | .error e => ⟨.error e, items⟩
+  | .error e => .error e
   | .ok items' =>
     let fuel := sizeOf' (items'.length + 64) items' + 64
     let endLine := (match c.g.endStatements with | e :: _ => e | [] => []) ++ delim c
     match encodeModule c items' 0 fuel with
-    | .error e => ⟨.error e, items'⟩
+    | .error e => .error e
     | .ok body =>
       let s := join c.newline [body, endLine]
       -- final sweep; the message construction `s[i - 5, i + 5]` raises TypeError
-      if !(s.all (charAllowed' c.g)) then ⟨.error .type, items'⟩
+      if !(s.all (charAllowedE c.g)) then .error .type
       else
         let s := if isOdlFamily c then s ++ c.newline else s
         let s := if c.kind == .pds && c.tabReplace > 0
           then s.flatMap (fun ch => if ch == 9 then List.replicate c.tabReplace 32 else [ch]) else s
-        ⟨.ok s, items'⟩
-where
-  charAllowed' (g : Grammar) (ch : Nat) : Bool := inRanges g.allowed ch
+        .ok s
+
+/-- `encoder.encode(module)` -/
+def encode (c : EncCfg) (items : Items) : EncResult := ⟨encodeOut c items, encodeAfter c items⟩
 
 end Enc
 end Pvl
